@@ -17,6 +17,11 @@ func init() {
 }
 
 func xGenProp(prop string, kind int, tier string, seed uint64, n int, e *Emitter) {
+	xGenPropWrap(prop, kind, tier, seed, n, e, nil)
+}
+
+// wrap, when given, turns the xcase term into the case type of another runner
+func xGenPropWrap(prop string, kind int, tier string, seed uint64, n int, e *Emitter, wrap func(string) string) {
 	if n == 0 {
 		n = 400
 		if tier == "thorough" {
@@ -42,6 +47,8 @@ func xGenProp(prop string, kind int, tier string, seed uint64, n int, e *Emitter
 			o.Mutation = true
 			o.MultiOp = false
 			pol = xPolicy{Null: 5, Err: 5, ValErr: 2, Panic: 2, Thunk: 40, Adversarial: 2}
+		case "C18":
+			pol = xPolicy{Null: 8, Err: 12, ValErr: 4, Panic: 4, Thunk: 10, Adversarial: 15, BadType: 5}
 		case "C20":
 			o.DirPct = 20
 			pol = xPolicy{Null: 5, Err: 3, Thunk: 10, Adversarial: 1}
@@ -82,6 +89,9 @@ func xGenProp(prop string, kind int, tier string, seed uint64, n int, e *Emitter
 			tags = append(tags, "mutation")
 		}
 		nt := strings.Contains(text, "...") || strings.Contains(text, "@") || strings.Contains(text, "_1") || strings.Contains(text, "_2")
+		if wrap != nil {
+			obs.coq = wrap(obs.coq)
+		}
 		c := Case{Group: prop + "-request", Coq: obs.coq, Desc: obs.desc, NT: nt && obs.nCalls > 0, Tags: tags}
 		if len(obs.fails) > 0 {
 			c.Fail = strings.Join(obs.fails, "; ")
